@@ -47,7 +47,7 @@ fn note_drop(v: i64) {
             false
         }
     });
-    if logging {
+    if logging && v != 0 {
         let fire = PANIC_AT.with(|p| {
             let mut p = p.borrow_mut();
             match p.as_mut() {
@@ -285,6 +285,8 @@ pub enum Op {
     LazyExec(Vec<Op>),
     RJoin { k: usize, mutable: bool, acts: Vec<RAct> },
     DropWorld,
+    Fault(u64),
+    Dump,
 }
 
 fn show_comps(out: &mut String, comps: &[(usize, i64)]) {
@@ -366,6 +368,8 @@ pub fn show_op(op: &Op) -> String {
             }
         }
         Op::DropWorld => s.push_str("drop_world"),
+        Op::Fault(n) => write!(s, "fault {}", n).unwrap(),
+        Op::Dump => s.push_str("dump"),
     }
     s
 }
@@ -462,6 +466,8 @@ pub fn parse_ops(ts: &[&str]) -> Option<Op> {
             Op::RJoin { k: k.parse().ok()?, mutable: *m == "m", acts: v }
         }
         ["drop_world"] => Op::DropWorld,
+        ["fault", n] => Op::Fault(n.parse().ok()?),
+        ["dump"] => Op::Dump,
         _ => return None,
     })
 }
@@ -495,6 +501,7 @@ pub type Shared = Arc<Mutex<Ctx>>;
 pub struct Exec {
     pub world: Option<World>,
     pub ctx: Shared,
+    pub pending_fault: Option<u64>,
 }
 
 fn resolve(ctx: &Shared, k: usize) -> Option<Entity> {
@@ -829,6 +836,25 @@ fn exec_inner(world: &mut World, ctx: &Shared, op: &Op) -> String {
             })
         }
         Op::DropWorld => "dropped".into(), // handled by Exec::exec (needs ownership)
+        Op::Fault(_) => "ok".into(),        // handled by Exec::exec
+        Op::Dump => {
+            // full observable content of every registered storage: `k [ i=v … ]`
+            let regs: Vec<usize> = { let c = ctx.lock().unwrap(); (0..NUM_KINDS).filter(|k| c.registered[*k]).collect() };
+            let mut out = String::from("dump");
+            for k in regs {
+                with_kind!(k, T => {
+                    let st = world.read_storage::<T>();
+                    write!(out, " {} [", k).unwrap();
+                    for i in mask_ids(&st) {
+                        // SAFETY-relevant: reading through the mask is exactly what C19 says stays valid
+                        let v = unsafe { specs::storage::UnprotectedStorage::<T>::get(st.unprotected_storage(), i) }.val();
+                        write!(out, " {}={}", i, v).unwrap();
+                    }
+                    out.push_str(" ]");
+                });
+            }
+            out
+        }
     }
 }
 
@@ -841,13 +867,20 @@ impl Exec {
     pub fn new() -> Self {
         let mut c = Ctx::default();
         for _ in 0..NUM_KINDS { c.readers.push(None); }
-        Exec { world: Some(World::new()), ctx: Arc::new(Mutex::new(c)) }
+        Exec { world: Some(World::new()), ctx: Arc::new(Mutex::new(c)), pending_fault: None }
     }
 
     /// Executes one top-level op; returns result tokens, the nested transcript lines it produced
     /// and the values destroyed during it (sorted).
     pub fn exec(&mut self, op: &Op) -> (String, Vec<String>, Vec<i64>) {
+        if let Op::Fault(n) = op {
+            self.pending_fault = Some(*n);
+            return ("ok".into(), Vec::new(), Vec::new());
+        }
         log_on();
+        if !matches!(op, Op::Dump) {
+            set_panic_at(self.pending_fault.take());
+        }
         let res = if let Op::DropWorld = op {
             match self.world.take() {
                 Some(w) => {
@@ -863,6 +896,7 @@ impl Exec {
                 None => "skip".to_string(),
             }
         };
+        set_panic_at(None);
         let mut d = log_off();
         d.sort();
         let sub = std::mem::take(&mut self.ctx.lock().unwrap().sub);
@@ -871,7 +905,7 @@ impl Exec {
 }
 
 pub fn is_mutating(op: &Op) -> bool {
-    !matches!(op, Op::Alive(_) | Op::WAlive(_) | Op::EJoin | Op::Get(..) | Op::Has(..) | Op::Count(_) | Op::Empty(_) | Op::Mask(_) | Op::Slice(_) | Op::Events(_))
+    !matches!(op, Op::Alive(_) | Op::WAlive(_) | Op::EJoin | Op::Get(..) | Op::Has(..) | Op::Count(_) | Op::Empty(_) | Op::Mask(_) | Op::Slice(_) | Op::Events(_) | Op::Fault(_) | Op::Dump)
 }
 
 #[derive(Clone, Copy)]
@@ -896,7 +930,7 @@ pub fn run_script(ops: &[Op], cfg: RunCfg, rng: &mut Rng, out: &mut String) {
     for op in ops {
         let r = ex.exec(op);
         emit_line(out, op, &r, cfg.ledger);
-        if is_mutating(op) && ex.world.is_some() {
+        if is_mutating(op) && ex.world.is_some() && r.0 != "panic" {
             if cfg.probe_entities {
                 let n = ex.ctx.lock().unwrap().log.len();
                 let ks: Vec<usize> = if n <= 12 { (0..n).collect() } else {
@@ -970,6 +1004,7 @@ pub struct StoreProfile {
     pub clear: bool,
     pub far_apart: bool,
     pub drop_world: bool,
+    pub faults: bool,
 }
 
 fn gen_comps(rng: &mut Rng, kinds: &[usize], val: &mut i64) -> Vec<(usize, i64)> {
@@ -1094,9 +1129,21 @@ pub fn gen_store_script(rng: &mut Rng, len: usize, p: &StoreProfile) -> Vec<Op> 
                 };
             }
         }
+        if p.faults {
+            let destroying = matches!(op, Op::Ins(..) | Op::Entry(_, _, EntryOp::OrInsert { .. }) | Op::DelNow(_) | Op::DelBatch(_) | Op::DelAll | Op::Clear(_) | Op::Maintain);
+            if destroying && rng.chance(1, 3) {
+                ops.push(Op::Fault(rng.below(4)));
+                ops.push(op);
+                ops.push(Op::Dump);
+                continue;
+            }
+        }
         ops.push(op);
     }
-    if p.drop_world { ops.push(Op::DropWorld); }
+    if p.drop_world {
+        if p.faults && rng.chance(1, 2) { ops.push(Op::Fault(rng.below(6))); }
+        ops.push(Op::DropWorld);
+    }
     ops
 }
 
@@ -1110,12 +1157,13 @@ pub fn random_profile(rng: &mut Rng, focus: &str) -> StoreProfile {
     if focus == "many" { kinds = all.clone(); }
     StoreProfile {
         kinds,
-        lazy: focus == "lazy" || rng.chance(1, 3),
-        rjoin: focus == "rjoin" || rng.chance(1, 4),
+        lazy: focus != "fault" && (focus == "lazy" || rng.chance(1, 3)),
+        rjoin: focus == "rjoin" || (focus != "fault" && rng.chance(1, 4)),
         emit_toggle: focus == "tracked" && rng.chance(1, 3),
         clear: focus != "tracked" && rng.chance(1, 2),
         far_apart: focus == "far" || rng.chance(1, 30),
-        drop_world: focus == "ledger" || rng.chance(1, 4),
+        drop_world: focus == "ledger" || focus == "fault" || rng.chance(1, 4),
+        faults: focus == "fault",
     }
 }
 
